@@ -7,10 +7,11 @@
      reply  a datagram arrives after timeout/2        none   nothing arrives
      late   a datagram arrives after 3*timeout/2      two    two datagrams arrive after timeout/2
      icmp   the OS reports an error (error_received)  lost   the connection is lost (connection_lost(exc))
+     gone   the transport goes away cleanly before any answer (connection_lost(None)): nobody resolves the future, the attempt times out
    PinNoFinallyClose re-enables the pinned tree (no close on the error path; fixed by ab1e880). *)
 EXTENDS Naturals, Sequences, FiniteSets, TLC
 CONSTANTS MaxRetries, Timeouts, PinNoFinallyClose
-Outcomes == {"reply", "none", "late", "two", "icmp", "lost"}
+Outcomes == {"reply", "none", "late", "two", "icmp", "lost", "gone"}
 VARIABLES retries, timeout, script, k, left, sock, sent, now, pc, outcome, lateDrops
 vars == <<retries, timeout, script, k, left, sock, sent, now, pc, outcome, lateDrops>>
 
@@ -33,7 +34,7 @@ Wait ==
             /\ now' = now + timeout \div 2 /\ sock' = Close(sock, k)
             /\ outcome' = [kind |-> "result", attempt |-> k, at |-> now + timeout \div 2] /\ pc' = "done"
             /\ UNCHANGED <<left, lateDrops>>
-       [] o \in {"none", "late"} ->
+       [] o \in {"none", "late", "gone"} ->
             \* wait_for times out: transport.abort(), Timeout; re-raised when this was the last attempt
             /\ now' = now + timeout /\ sock' = Close(sock, k)
             /\ lateDrops' = lateDrops + (IF o = "late" THEN 1 ELSE 0)
@@ -56,7 +57,7 @@ Next == OpenAndSend \/ Wait \/ Done
 Spec == Init /\ [][Next]_vars /\ WF_vars(OpenAndSend \/ Wait)
 
 \* ---------------------------------------------------------------- properties (C13)
-Unanswered(i) == script[i] \in {"none", "late"}
+Unanswered(i) == script[i] \in {"none", "late", "gone"}
 FirstAnswered == IF \E i \in 1..retries : ~Unanswered(i) THEN CHOOSE i \in 1..retries : ~Unanswered(i) /\ \A j \in 1..(i - 1) : Unanswered(j) ELSE 0
 BoundedRetries == sent <= retries
 NoSocketLeftOpen == pc = "done" => \A i \in DOMAIN sock : sock[i] = "closed"
